@@ -111,15 +111,30 @@ def to_py(t):
   if k == 'tuple':
     return tuple(kids)
   if k == 'dictset':     # a batch: unordered columns {path -> values}
-    out = {}
-    for p, vals in t['cols']:
-      cur = out
-      names = [e['s'] for e in p]
-      for n in names[:-1]:
-        cur = cur.setdefault(n, {})
-      cur[names[-1]] = [to_py(v) for v in vals]
-    return out
+    cols = sorted(t['cols'], key=lambda c: [(e['t'], e['s'], e['i']) for e in c[0]])
+    root = None
+    for p, vals in cols:
+      root = _set_path(root, p, [to_py(v) for v in vals])
+    return root
   raise ValueError(k)
+
+
+def _set_path(node, path, value):
+  """default-tree construction: a key creates a dict, an index a list (append at its length)"""
+  if not path:
+    return value
+  e = path[0]
+  if e['t'] == 'key':
+    node = {} if node is None else node
+    node[e['s']] = _set_path(node.get(e['s']), path[1:], value)
+    return node
+  node = [] if node is None else node
+  i = e['i']
+  if i < len(node):
+    node[i] = _set_path(node[i], path[1:], value)
+  else:
+    node.append(_set_path(None, path[1:], value))
+  return node
 
 
 def canon(x):
